@@ -62,13 +62,6 @@ __CPROVER_ensures(g_which != 6 ==> ((in_stod_val != in_stod_val) == (__CPROVER_r
 __CPROVER_ensures(position == NULL || g_pos == in_stof_pos)
 __CPROVER_assigns(g_threw, g_calls, g_which, g_pos);
 
-unsigned h_readRamUnsigned(unsigned long *charactersRead, unsigned long element_size)
-__CPROVER_requires(charactersRead == &g_pos && element_size > 0 && g_threw == 0 && g_calls == 0 && !in_ufs_throws)
-__CPROVER_ensures(g_calls == 1 && g_threw == 0)
-__CPROVER_ensures(__CPROVER_return_value == in_ufs_val && g_pos == in_ufs_pos)
-__CPROVER_ensures(g_ufs_base == 2 || g_ufs_base == 16 || g_ufs_base == 10)
-__CPROVER_assigns(g_threw, g_calls, g_which, g_pos, g_ufs_base);
-
 #ifdef VX_CANARY
 #define CANARY __CPROVER_assert(0, "canary: reachable after the call under contract")
 #else
@@ -79,4 +72,3 @@ static void inputs(void) { in_stoul_val = nondet_ulong(); in_stoul_pos = nondet_
 void harness_ustr(void) { inputs(); g_threw = 0; g_calls = 0; h_ustr_tail(in_pos_null ? NULL : &g_pos, nondet_int(), in_binary); CANARY; }
 void harness_sstr(void) { inputs(); g_threw = 0; g_calls = 0; h_sstr_tail(in_pos_null ? NULL : &g_pos, nondet_int(), in_binary); CANARY; }
 void harness_fstr(void) { inputs(); g_threw = 0; g_calls = 0; h_fstr(in_pos_null ? NULL : &g_pos); CANARY; }
-void harness_rru(void) { inputs(); g_threw = 0; g_calls = 0; h_readRamUnsigned(&g_pos, nondet_ulong()); CANARY; }
